@@ -6,6 +6,7 @@ evaluated by this module, calls go to (a) closures defined in the interpreted fu
 (c) a whitelist of builtins / list / dict / str methods.  Anything else raises AnalysisError (exit 2), never a guess.
 """
 import ast
+import re
 
 from .source import AnalysisError, norm, dotted
 
@@ -100,6 +101,7 @@ SAFE_METHODS = {
     str: {'upper', 'lower', 'strip', 'split', 'startswith', 'endswith', 'join', 'replace', 'isdigit', 'format'},
     set: {'add', 'discard', 'copy', 'update'},
     tuple: {'index', 'count'},
+    re.Match: {'group', 'groups', 'start', 'end', 'span'},
 }
 
 
